@@ -41,7 +41,7 @@ type c01Case struct {
 }
 
 var c01TreeCfg = h.TreeCfg{
-	MaxEntries: 12, MaxDepth: 3, Names: []string{"a", "b", "ab", "a-b", "a.b", "c", "a0", "d", ".tmp.123456", "é", "a b", "x"},
+	MaxEntries: 12, MaxDepth: 3, Names: []string{"a", "b", "ab", "a-b", "a.b", "c", "a0", "d", ".tmp.123456", "é", "a b", "x", listingName},
 	Xattrs: true, XattrNS: []string{"user.", "trusted.", "security."}, Hardlinks: true, SpecialLinks: true, BigFiles: true, Caps: true, BigXattrs: true, BadUTF8: true,
 	SymTargets: []string{"a", "b", "../a", "/a", "/nonexistent/x", "a/b", ".", "dangling", "../../../etc"}, UncleanTargets: true,
 }
